@@ -89,8 +89,11 @@ class GraphGen:
   children among leaves and previously created nodes (sharing), so the result is acyclic."""
 
   def __init__(self, r, *, size=10, positional=True, tags=False, partials=False, custom=True,
-               buildable_types=(fdl.Config,), leaf_values=None, nt_bias=0.0, classes=0.0):
+               buildable_types=(fdl.Config,), leaf_values=None, nt_bias=0.0, classes=0.0,
+               duck=0.0, tagged_values=0.0):
     self.nt_bias = nt_bias
+    self.duck = duck
+    self.tagged_values = tagged_values
     self.classes = classes
     self.r = r
     self.size = size
@@ -137,6 +140,11 @@ class GraphGen:
     x = r.random()
     n = r.randint(0, 3)
     kids = [self.child() for _ in range(n)]
+    if self.tagged_values:
+      # a filled TaggedValue that sits inside a container stays a node of its own (as a direct
+      # argument it would be unwrapped); it builds to its value
+      kids = [fdl.TaggedValue(tags=[r.choice(targets.TAGS)], default=k)
+              if r.random() < self.tagged_values else k for k in kids]
     if r.random() < self.nt_bias:
       # named tuples (direct, typing.NamedTuple, and a class inheriting from one) holding nodes
       cls = r.choice([NT, NT2, NTSub])
@@ -165,6 +173,8 @@ class GraphGen:
     sig_i = r.randrange(len(KW_SIGS))
     sig = KW_SIGS[sig_i]
     fn = node_fn(sig_i, r.randrange(len(FN_NAMES)))
+    if self.duck and r.random() < self.duck and not any(p[1] in ('po', 'vp') for p in sig):
+      fn = node_fn(sig_i, r.randrange(len(FN_NAMES)), species='duck_class')
     if self.classes and r.random() < self.classes:
       sig_i = 1
       sig = KW_SIGS[1]
@@ -375,7 +385,8 @@ class Encoder:
   """Encodes a Python object graph as a topologically ordered heap. Independent of daglish's
   traversal machinery: children are read directly from the Python objects."""
 
-  def __init__(self, with_defaults=True, atom_pred=None):
+  def __init__(self, with_defaults=True, atom_pred=None, transparent_tagged=False):
+    self.transparent_tagged = transparent_tagged   # a filled stand-alone TaggedValue = its value
     self.with_defaults = with_defaults
     self.atom_pred = atom_pred      # extra values to encode by token instead of by identity
     self.objs = []
@@ -406,6 +417,9 @@ class Encoder:
   def val(self, x):
     if is_atom(x):
       return {'a': atom_token(x)}
+    if self.transparent_tagged and isinstance(x, config_lib.TaggedValueCls) and 'value' in x.__arguments__:
+      self.keep.append(x)
+      return self.val(x.__arguments__['value'])
     if self.atom_pred is not None and id(x) not in self.ids:
       tok = self.atom_pred(x)
       if tok:
@@ -553,6 +567,7 @@ def canon(root, *, order_dicts=False, with_tags=True):
   binding; functools.partial objects print (func, args, keywords)."""
   seen = {}
   keep = []
+  counter = [0]
 
   def go(x):
     if isinstance(x, (tuple,)) and x == () and type(x) is tuple:
@@ -564,7 +579,8 @@ def canon(root, *, order_dicts=False, with_tags=True):
       pass
     if id(x) in seen:
       return ['^', seen[id(x)]]
-    n = len(seen)
+    n = counter[0]
+    counter[0] += 1
     seen[id(x)] = n
     keep.append(x)
     if isinstance(x, fdl.Buildable):
@@ -582,7 +598,13 @@ def canon(root, *, order_dicts=False, with_tags=True):
       return ['rec', n, x.fn_name, [[k, go(v)] for k, v in x.slots], [go(v) for v in x.var],
               [[k, go(v)] for k, v in kw_items]]
     if hasattr(x, 'rec') and isinstance(getattr(x, 'rec'), Rec):
-      return ['inst', n, go(x.rec)]
+      # an instance of a recording class is identified with its record (one object, one number)
+      rec = x.rec
+      seen[id(rec)] = n
+      keep.append(rec)
+      kw_items = sorted(rec.kw.items()) if order_dicts else list(rec.kw.items())
+      return ['rec', n, rec.fn_name, [[k, go(v)] for k, v in rec.slots], [go(v) for v in rec.var],
+              [[k, go(v)] for k, v in kw_items]]
     if isinstance(x, functools.partial):
       return ['partial', n, go(x.func), [go(v) for v in x.args],
               [[k, go(v)] for k, v in x.keywords.items()]]
